@@ -112,6 +112,15 @@ def rank_map(case):
     return {k: i for i, k in enumerate(order)}
 
 
+def pfrac(k) -> Fraction:
+    """Exact value of an edge probability: int k means k/1024, a float means that double."""
+    return Fraction(k, 1024) if isinstance(k, int) else Fraction(float(k))
+
+
+def pfloat(k) -> float:
+    return k / 1024 if isinstance(k, int) else float(k)
+
+
 def thr_fraction(thr):
     if thr is None:
         return None
@@ -136,7 +145,7 @@ def oracle(case):
 
     t = thr_fraction(case["thr"])
     for l, r, k in case["edges"]:
-        if t is None or Fraction(k, 1024) >= t:
+        if t is None or pfrac(k) >= t:
             a, b = find(rk[key_of(l)]), find(rk[key_of(r)])
             if a != b:
                 parent[max(a, b)] = min(a, b)
@@ -225,7 +234,7 @@ def _thr_kwargs(thr):
         return {}
     if thr[0] == "p":
         return {"threshold_match_probability": thr[1] / 1024}
-    return {"threshold_match_weight": thr[1]}
+    return {"threshold_match_weight": thr[1]}      # "w": integer weight, "wf": any float weight
 
 
 def _col(values, kind):
@@ -258,7 +267,7 @@ def _run_impl(case, api, cap):
         edges = pd.DataFrame({
             "uid_l": _col([key_of(e[0]) for e in case["edges"]], kind),
             "uid_r": _col([key_of(e[1]) for e in case["edges"]], kind),
-            "match_probability": pd.Series([e[2] / 1024 for e in case["edges"]], dtype="float64"),
+            "match_probability": pd.Series([pfloat(e[2]) for e in case["edges"]], dtype="float64"),
         })
         cc = cpt(nodes, edges, api, "uid", **kw)
         rows = [(r["uid"], r["cluster_id"]) for r in cc.as_record_dict()]
@@ -293,7 +302,7 @@ def _run_impl(case, api, cap):
         })
         aliases = None
     if not case.get("no_prob_col"):
-        pred["match_probability"] = pd.Series([e[2] / 1024 for e in case["edges"]], dtype="float64")
+        pred["match_probability"] = pd.Series([pfloat(e[2]) for e in case["edges"]], dtype="float64")
         pred["match_weight"] = pd.Series([0.0] * len(case["edges"]), dtype="float64")
     lk = su.linker(tables, settings, backend, aliases=aliases, api=api)
     dfp = lk.table_management.register_table_predict(pred, overwrite=True)
@@ -373,7 +382,7 @@ def _row(r):
 def coq_inputs(case):
     rk = rank_map(case)
     nodes = coq_list([coq_Z(rk[key_of(x)]) for x in case["nodes"]], "Z")
-    edges = coq_list([f"({coq_Z(rk[key_of(l)])}, {coq_Z(rk[key_of(r)])}, {coq_Q(Fraction(k, 1024))})"
+    edges = coq_list([f"({coq_Z(rk[key_of(l)])}, {coq_Z(rk[key_of(r)])}, {coq_Q(pfrac(k))})"
                       for l, r, k in case["edges"]], "(Z * Z * Q)")
     thr = case["thr"]
     if thr is None:
